@@ -1,7 +1,9 @@
 //! Helpers shared by C02 and C05: aligned allocation/copies of core layouts, garbage-filled scratch, exact
 //! polynomial arithmetic on big integers (reference model R2 on exact values), value alphabets.
 
-use poulpy_core::layouts::{Base2K, Degree, GLWE, GLWEPlaintext, GLWETensor, LWEInfos, Rank, TorusPrecision};
+use poulpy_core::layouts::{
+    Base2K, Degree, GLWE, GLWEPlaintext, GLWETensor, LWEInfos, Rank, TorusPrecision,
+};
 use poulpy_hal::alloc_aligned;
 use poulpy_hal::layouts::{DataRef, Scratch, VecZnx, ZnxInfos, ZnxView, ZnxViewMut};
 use pvc_common::Bk;
@@ -12,20 +14,39 @@ use pvc_model::torus;
 pub type Poly = Vec<IBig>;
 
 pub fn glwe_alloc(n: usize, b: usize, size: usize, rank: usize) -> GLWE<Vec<u8>> {
-    GLWE::alloc(Degree(n as u32), Base2K(b as u32), TorusPrecision((size * b) as u32), Rank(rank as u32))
+    GLWE::alloc(
+        Degree(n as u32),
+        Base2K(b as u32),
+        TorusPrecision((size * b) as u32),
+        Rank(rank as u32),
+    )
 }
 
 pub fn tensor_alloc(n: usize, b: usize, size: usize, rank: usize) -> GLWETensor<Vec<u8>> {
-    GLWETensor::alloc(Degree(n as u32), Base2K(b as u32), TorusPrecision((size * b) as u32), Rank(rank as u32))
+    GLWETensor::alloc(
+        Degree(n as u32),
+        Base2K(b as u32),
+        TorusPrecision((size * b) as u32),
+        Rank(rank as u32),
+    )
 }
 
 pub fn pt_alloc(n: usize, b: usize, size: usize) -> GLWEPlaintext<Vec<u8>> {
-    GLWEPlaintext::alloc(Degree(n as u32), Base2K(b as u32), TorusPrecision((size * b) as u32))
+    GLWEPlaintext::alloc(
+        Degree(n as u32),
+        Base2K(b as u32),
+        TorusPrecision((size * b) as u32),
+    )
 }
 
 /// aligned deep copy (Vec::clone would lose the 64-byte alignment)
 pub fn glwe_clone(g: &GLWE<Vec<u8>>) -> GLWE<Vec<u8>> {
-    let mut out = glwe_alloc(g.n().0 as usize, g.base2k().0 as usize, g.size(), g.data().cols() - 1);
+    let mut out = glwe_alloc(
+        g.n().0 as usize,
+        g.base2k().0 as usize,
+        g.size(),
+        g.data().cols() - 1,
+    );
     out.data_mut().raw_mut().copy_from_slice(g.data().raw());
     out
 }
@@ -55,7 +76,11 @@ thread_local! {
 /// The arena is a per-thread, per-pattern buffer (a fresh multi-megabyte allocation per call would serialise the
 /// workers in the kernel); the first `query + 16 KiB` bytes are re-filled before every call, the remainder keeps
 /// the pattern of the initial full fill (never zeros). `bytes` = companion query + slack (callers add 1 MiB).
-pub fn with_scratch<B: Bk, T>(bytes: usize, which: usize, f: impl FnOnce(&mut Scratch<B>) -> T) -> T {
+pub fn with_scratch<B: Bk, T>(
+    bytes: usize,
+    which: usize,
+    f: impl FnOnce(&mut Scratch<B>) -> T,
+) -> T {
     let bytes = bytes.div_ceil(64) * 64 + 64;
     let which = which & 3;
     // take the buffer out of the cell so that a panic inside `f` cannot leave it borrowed
@@ -67,7 +92,9 @@ pub fn with_scratch<B: Bk, T>(bytes: usize, which: usize, f: impl FnOnce(&mut Sc
         let hot = (bytes.saturating_sub(1 << 20) + (16 << 10)).min(buf.len());
         garbage(&mut buf[..hot], which);
     }
-    let r = std::panic::catch_unwind(std::panic::AssertUnwindSafe(|| f(B::scratch_from_bytes(&mut buf[..bytes]))));
+    let r = std::panic::catch_unwind(std::panic::AssertUnwindSafe(|| {
+        f(B::scratch_from_bytes(&mut buf[..bytes]))
+    }));
     SCRATCH.with(|c| c.borrow_mut()[which] = buf);
     match r {
         Ok(v) => v,
@@ -196,7 +223,11 @@ pub fn max_torus_err(got: &Poly, gbits: usize, want: &Poly, l: usize) -> (IBig, 
 
 /// floating approximation of x / 2^bits (reporting only)
 pub fn approx_units(x: &IBig, bits: usize) -> f64 {
-    let q: IBig = if bits >= 10 { x >> (bits - 10) } else { x << (10 - bits) };
+    let q: IBig = if bits >= 10 {
+        x >> (bits - 10)
+    } else {
+        x << (10 - bits)
+    };
     q.to_string().parse::<f64>().unwrap_or(f64::INFINITY) / 1024.0
 }
 
@@ -208,7 +239,12 @@ pub fn approx_units(x: &IBig, bits: usize) -> f64 {
 /// 0 = normalised random digits; 1 = extreme digits (alternating -2^(b-1) / 2^(b-1)-1, aligned per limb);
 /// 2 = carry ripple (all digits 2^(b-1)-1, signs per coefficient); 3 = un-normalised random digits in
 /// [-2^(b+1), 2^(b+1)] (only for operations that normalise).
-pub fn fill_class<D: poulpy_hal::layouts::DataMut>(v: &mut VecZnx<D>, b: usize, class: usize, rng: &mut Rng) {
+pub fn fill_class<D: poulpy_hal::layouts::DataMut>(
+    v: &mut VecZnx<D>,
+    b: usize,
+    class: usize,
+    rng: &mut Rng,
+) {
     let (n, cols, size) = (v.n(), v.cols(), v.size());
     let h = 1i64 << (b - 1);
     for c in 0..cols {
